@@ -20,8 +20,6 @@ import (
 	"github.com/mdzio/go-mqtt/auth"
 	"github.com/mdzio/go-mqtt/message"
 	"github.com/mdzio/go-mqtt/service"
-	"github.com/mdzio/go-mqtt/sessions"
-	"github.com/mdzio/go-mqtt/topics"
 )
 
 const brokerWait = 5 * time.Second
@@ -197,8 +195,7 @@ func (b *brokerCore) reset() {
 	}
 	n := atomic.AddInt64(&providerSeq, 1)
 	name := fmt.Sprintf("verif%d", n)
-	sessions.Register(name, sessions.NewMemProvider())
-	topics.Register(name, topics.NewMemProvider())
+	registerProviders(name)
 	b.svr = &service.Server{ConnectTimeout: 1, SessionsProvider: name, TopicsProvider: name, Authenticator: "verifAuth"}
 	b.clients = map[int]*rawClient{}
 	b.cbs = map[int]*service.OnPublishFunc{}
